@@ -114,6 +114,12 @@ func (c SubCfg) Nominal(n int) time.Duration {
 type Cfg struct {
 	Topics []string
 	Subs   []SubCfg
+	// Alt: alternative configuration used by createSub(..., Tgt "alt")
+	Alt []SubCfg
+	// Lazy: subscriptions that exist only in the alphabet (not created by Setup)
+	Lazy []string
+	// LazyTopics: likewise for topics
+	LazyTopics []string
 }
 
 type Topic struct {
@@ -210,9 +216,26 @@ func New(cfg Cfg) *Model {
 	return &Model{Cfg: cfg, Topics: map[string]*Topic{}, Subs: map[string]*Sub{}, MsgIdx: map[string]int{}, Snaps: map[string]*Snap{}}
 }
 
-func TopicPath(short string) string { return "projects/p/topics/" + short }
-func SubPath(short string) string   { return "projects/p/subscriptions/" + short }
-func SnapPath(short string) string  { return "projects/p/snapshots/" + short }
+// Short names are "id" (project p) or "project:id".
+func SplitShort(short string) (project, id string) {
+	if i := strings.IndexByte(short, ':'); i >= 0 {
+		return short[:i], short[i+1:]
+	}
+	return "p", short
+}
+func ProjectPath(project string) string { return "projects/" + project }
+func TopicPath(short string) string {
+	p, id := SplitShort(short)
+	return "projects/" + p + "/topics/" + id
+}
+func SubPath(short string) string {
+	p, id := SplitShort(short)
+	return "projects/" + p + "/subscriptions/" + id
+}
+func SnapPath(short string) string {
+	p, id := SplitShort(short)
+	return "projects/" + p + "/snapshots/" + id
+}
 
 // ---------------------------------------------------------------------------
 // clone
@@ -306,6 +329,15 @@ func (m *Model) status(s *Sub, idx int, call Iv) (Due, string) {
 				res = May
 				continue
 			}
+			if p.Forwarded && d.Forwarded && p.Enq == d.Enq {
+				// dead-letter copies enqueued by one and the same step have no
+				// publish order among themselves on the dead-letter subscription:
+				// the earlier one may or may not hold the later one back
+				if rel(call, p.Exp) != After {
+					res = May
+				}
+				continue
+			}
 			switch rel(call, p.Exp) {
 			case Before:
 				return No, "ordered"
@@ -355,6 +387,24 @@ type Obs struct {
 	N      int // job result
 	// Rows: the deliveries table after the call (id -> done, attempts)
 	Rows map[string]Row
+	// LiveBySubMsg: "subscription path|message id" -> number of not-completed
+	// delivery rows of a not-deleted subscription row
+	LiveBySubMsg map[string]int
+	// LiveTopics / LiveSubs: names of rows with deleted_at IS NULL
+	LiveTopics, LiveSubs map[string]int
+	// Names: Get/List results (full resource paths, in response order)
+	Names []string
+	// Got: configuration echoed by GetSubscription
+	Got *SubView
+}
+
+// SubView is the client-visible configuration of a subscription.
+type SubView struct {
+	Topic    string
+	Filter   string
+	Ordered  bool
+	DLTopic  string
+	MaxAttempts int
 }
 
 func (o Obs) Call() Iv { return Iv{o.T0, o.T1} }
@@ -416,6 +466,8 @@ func (m *Model) Apply(c Call, o Obs) []Hit {
 		hits = m.applyJob(c, o)
 	case "tick":
 		// nothing
+	case "getTopic", "getSub", "getSnap", "listTopics", "listSubs", "listSnaps", "listTopicSubs", "delSnap":
+		hits = m.applyResource(c, o)
 	default:
 		panic("unknown op " + c.Op.K)
 	}
@@ -488,8 +540,20 @@ func (m *Model) subCfg(short string) (SubCfg, bool) {
 	return SubCfg{}, false
 }
 
+func (m *Model) SubCfgFor(op Op) (SubCfg, bool) {
+	if op.Tgt == "alt" {
+		for _, s := range m.Cfg.Alt {
+			if s.Name == op.Sub {
+				return s, true
+			}
+		}
+		return SubCfg{}, false
+	}
+	return m.subCfg(op.Sub)
+}
+
 func (m *Model) applyCreateSub(c Call, o Obs) []Hit {
-	cfg, ok := m.subCfg(c.Op.Sub)
+	cfg, ok := m.SubCfgFor(c.Op)
 	if !ok {
 		panic("no cfg for " + c.Op.Sub)
 	}
@@ -699,7 +763,11 @@ func (m *Model) applyPull(c Call, o Obs) []Hit {
 		seenAck[rm.AckID] = true
 		i := m.findDel(s, rm)
 		if i < 0 || seen[i] {
-			hits = append(hits, hit("pull-foreign", pC02, "Pull(%s) returned message %s (ack %s) that has no delivery owed on this subscription", c.Op.Sub, rm.MsgID, rm.AckID))
+			props := pC02
+			if s.Gen > 0 {
+				props = append(pC02, "C12")
+			}
+			hits = append(hits, hit("pull-foreign", props, "Pull(%s) returned message %s (ack %s) that has no delivery owed on this subscription (generation %d of that name)", c.Op.Sub, rm.MsgID, rm.AckID, s.Gen))
 			continue
 		}
 		seen[i] = true
@@ -1207,10 +1275,28 @@ func (m *Model) applyJob(c Call, o Obs) []Hit {
 // holds acknowledged must not have become live again.
 func (m *Model) checkRows(o Obs, call Iv) []Hit {
 	var hits []Hit
+	if o.LiveTopics != nil {
+		for n, t := range m.Topics {
+			c := o.LiveTopics[TopicPath(n)]
+			if t.Live && c != 1 || !t.Live && c != 0 {
+				hits = append(hits, hit("live-topic-rows", []string{"C12", "C15"}, "topic %s: model live=%v but %d live rows", n, t.Live, c))
+			}
+		}
+		for n, s := range m.Subs {
+			c := o.LiveSubs[SubPath(n)]
+			if s.Live && c != 1 || !s.Live && c != 0 {
+				hits = append(hits, hit("live-sub-rows", []string{"C12", "C15", "C14"}, "subscription %s: model live=%v but %d live rows", n, s.Live, c))
+			}
+		}
+	}
 	for _, n := range m.subNames() {
 		s := m.Subs[n]
+		need := map[int]int{}
 		for _, d := range s.Dels {
 			if d.AckID == "" {
+				if s.Live && o.LiveBySubMsg != nil && d.State == Outstanding && rel(call, d.Exp) == Before {
+					need[d.Msg]++
+				}
 				continue
 			}
 			r, ok := o.Rows[d.AckID]
@@ -1235,6 +1321,12 @@ func (m *Model) checkRows(o Obs, call Iv) []Hit {
 					}
 					hits = append(hits, hit("row-resurrected", p, "delivery %s of message %s on %s was %s but its row is live again", d.AckID, m.Msgs[d.Msg].ID, n, d.State))
 				}
+			}
+		}
+		for mi, k := range need {
+			// never-delivered deliveries are identified by (subscription, message)
+			if have := o.LiveBySubMsg[SubPath(n)+"|"+m.Msgs[mi].ID]; have < k {
+				hits = append(hits, hit("row-missing", append(pC01, "C15"), "message %s is owed to %s (%d undelivered deliveries) but only %d live delivery rows exist", m.Msgs[mi].ID, n, k, have))
 			}
 		}
 	}
@@ -1304,3 +1396,129 @@ func (m *Model) Digest(now time.Time, bucket time.Duration) string {
 	}
 	return b.String()
 }
+
+// ---------------------------------------------------------------------------
+// resource names (C12)
+
+func sortedCopy(in []string) []string {
+	out := append([]string(nil), in...)
+	sort.Strings(out)
+	return out
+}
+
+func sameSet(a, b []string) bool {
+	a, b = sortedCopy(a), sortedCopy(b)
+	if len(a) != len(b) {
+		return false
+	}
+	for i := range a {
+		if a[i] != b[i] {
+			return false
+		}
+	}
+	return true
+}
+
+func (m *Model) applyResource(c Call, o Obs) []Hit {
+	switch c.Op.K {
+	case "getTopic":
+		live := m.liveTopic(c.Op.Topic) != nil
+		if live != (o.Err == "") || (!live && o.Err != "NotFound") {
+			return []Hit{hit("get-topic", pC12, "GetTopic(%s): live=%v but response %q", c.Op.Topic, live, o.Err)}
+		}
+		if live && (len(o.Names) != 1 || o.Names[0] != TopicPath(c.Op.Topic)) {
+			return []Hit{hit("get-topic-name", pC12, "GetTopic(%s) returned %v", c.Op.Topic, o.Names)}
+		}
+	case "getSub":
+		s := m.liveSub(c.Op.Sub)
+		live := s != nil
+		if live != (o.Err == "") || (!live && o.Err != "NotFound") {
+			return []Hit{hit("get-sub", append(pC12, "C14"), "GetSubscription(%s): live=%v but response %q", c.Op.Sub, live, o.Err)}
+		}
+		if live {
+			if len(o.Names) != 1 || o.Names[0] != SubPath(c.Op.Sub) {
+				return []Hit{hit("get-sub-name", pC12, "GetSubscription(%s) returned %v", c.Op.Sub, o.Names)}
+			}
+			if o.Got != nil {
+				want := SubView{Topic: TopicPath(s.Cfg.Topic), Ordered: s.Cfg.Ordered, MaxAttempts: s.Cfg.MaxAttempts}
+				if t := m.Topics[s.Cfg.Topic]; t == nil || !t.Live || t.Gen != s.TGen {
+					want.Topic = "_deleted-topic_"
+				}
+				if s.Cfg.Filter != nil {
+					want.Filter = s.Cfg.Filter.Render(filtStyle)
+				}
+				if s.Cfg.MaxAttempts > 0 {
+					want.DLTopic = TopicPath(s.Cfg.DLTopic)
+					if t := m.Topics[s.Cfg.DLTopic]; t == nil || !t.Live || t.Gen != s.DLGen {
+						want.DLTopic = "_deleted-topic_"
+					}
+				}
+				if *o.Got != want {
+					return []Hit{hit("get-sub-config", append(pC12, "C17"), "GetSubscription(%s) (generation %d) returned %+v, want %+v", c.Op.Sub, s.Gen, *o.Got, want)}
+				}
+			}
+		}
+	case "getSnap":
+		_, live := m.Snaps[c.Op.Name]
+		if live != (o.Err == "") || (!live && o.Err != "NotFound") {
+			return []Hit{hit("get-snap", pC12, "GetSnapshot(%s): exists=%v but response %q", c.Op.Name, live, o.Err)}
+		}
+	case "delSnap":
+		_, live := m.Snaps[c.Op.Name]
+		if live != (o.Err == "") || (!live && o.Err != "NotFound") {
+			return []Hit{hit("del-snap", pC12, "DeleteSnapshot(%s): exists=%v but response %q", c.Op.Name, live, o.Err)}
+		}
+		delete(m.Snaps, c.Op.Name)
+	case "listTopics", "listSubs", "listSnaps":
+		if o.Err != "" {
+			return []Hit{hit("list-failed", pC12, "%s(%s, page %d) failed: %s", c.Op.K, c.Op.Tgt, c.Op.Max, o.Err)}
+		}
+		var want []string
+		switch c.Op.K {
+		case "listTopics":
+			for n, t := range m.Topics {
+				if p, _ := SplitShort(n); t.Live && p == c.Op.Tgt {
+					want = append(want, TopicPath(n))
+				}
+			}
+		case "listSubs":
+			for n, s := range m.Subs {
+				if p, _ := SplitShort(n); s.Live && p == c.Op.Tgt {
+					want = append(want, SubPath(n))
+				}
+			}
+		case "listSnaps":
+			for n := range m.Snaps {
+				if p, _ := SplitShort(n); p == c.Op.Tgt {
+					want = append(want, SnapPath(n))
+				}
+			}
+		}
+		if !sameSet(want, o.Names) {
+			return []Hit{hit("list-mismatch", pC12, "%s(project %s, page size %d) returned %v, the live set of exactly that project is %v", c.Op.K, c.Op.Tgt, c.Op.Max, sortedCopy(o.Names), sortedCopy(want))}
+		}
+	case "listTopicSubs":
+		t := m.liveTopic(c.Op.Topic)
+		if t == nil {
+			if o.Err != "NotFound" {
+				return []Hit{hit("list-topic-subs-absent", pC12, "ListTopicSubscriptions(%s) on an absent topic returned %q", c.Op.Topic, o.Err)}
+			}
+			return nil
+		}
+		if o.Err != "" {
+			return []Hit{hit("list-failed", pC12, "ListTopicSubscriptions(%s) failed: %s", c.Op.Topic, o.Err)}
+		}
+		var want []string
+		for n, s := range m.Subs {
+			if s.Live && s.Cfg.Topic == c.Op.Topic && s.TGen == t.Gen {
+				want = append(want, SubPath(n))
+			}
+		}
+		if !sameSet(want, o.Names) {
+			return []Hit{hit("list-mismatch", pC12, "ListTopicSubscriptions(%s, page size %d) returned %v, want %v", c.Op.Topic, c.Op.Max, sortedCopy(o.Names), sortedCopy(want))}
+		}
+	}
+	return nil
+}
+
+var filtStyle = filt.Style{}
